@@ -30,6 +30,23 @@ T = {
     "E": ("E", "d_e", "{x}.clone()"),
     "W": ("W", "d_w", "{x}.clone()"),
     "small": ("u8", "d_small", "*{x}"),
+    "i8": ("i8", "d_i8", "*{x}"),
+    "u16": ("u16", "d_u16", "*{x}"),
+    "u32": ("u32", "d_u32", "*{x}"),
+    "i64": ("i64", "d_i64", "*{x}"),
+    "u128": ("u128", "d_u128", "*{x}"),
+    "usize": ("usize", "d_usize", "*{x}"),
+    "isize": ("isize", "d_isize", "*{x}"),
+    "f32": ("f32", "d_f32", "*{x}"),
+    "(u8,u8,u8)": ("(u8, u8, u8)", "d_triple", "*{x}"),
+    "(u8,u8,u8,u8,u8)": ("(u8, u8, u8, u8, u8)", "d_quint", "*{x}"),
+    "Vec<Vec<u8>>": ("Vec<Vec<u8>>", "d_vec_vec", "{x}.clone()"),
+    "Option<Option<u8>>": ("Option<Option<u8>>", "d_opt_opt", "*{x}"),
+    "Vec<(u8,u8)>": ("Vec<(u8, u8)>", "d_vec_pair", "{x}.clone()"),
+    "Option<(String,u8)>": ("Option<(String, u8)>", "d_opt_spair", "{x}.clone()"),
+    "&[String]": ("&[String]", "d_vec_string", "&{x}[..]"),
+    "(char,bool)": ("(char, bool)", "d_cb", "*{x}"),
+    "(String,)": ("(String,)", "d_single", "{x}.clone()"),
 }
 
 SHAPES = [
@@ -39,6 +56,9 @@ SHAPES = [
     ("Option<u8>", "Option<u8>"), ("Option<String>", "String"), ("Vec<u8>", "Vec<u8>"), ("&[u8]", "u8"), ("Vec<String>", "String"),
     ("(u8,u8)", "u8"), ("(String,u8)", "String"), ("(u8,(u8,u8))", "u8"), ("Option<Vec<u8>>", "u8"), ("Vec<Option<u8>>", "u8"),
     ("P", "u8"), ("E", "E"), ("W", "u8"), ("P", "String"),
+    ("i8", "i8"), ("u16", "u32"), ("i64", "u128"), ("usize", "isize"), ("f32", "f32"), ("i8", "u16", "i64"),
+    ("(u8,u8,u8)", "u8"), ("(u8,u8,u8,u8,u8)",), ("Vec<Vec<u8>>", "u8"), ("Option<Option<u8>>", "Option<u8>"), ("Vec<(u8,u8)>", "u8"),
+    ("Option<(String,u8)>", "String"), ("&[String]", "&str"), ("(char,bool)", "char"), ("(String,)", "String"),
 ]
 # methods: receiver kind + further args
 METHODS = [("&self", ()), ("&self", ("u8",)), ("&self", ("u8", "u8")), ("&self", ("String",)), ("self", ("u8",)), ("&mut self", ("u8",)), ("&self", ("&str", "u8"))]
